@@ -301,6 +301,162 @@ def r11_counted_loops(ctx, reach):
     ctx.ob("R20.11", "input-reachable-set:no-unbounded-counted-loop", True, "", "%d counted loops over input-derived wide integers examined" % n, nontrivial=False)
 
 
+def r12_subtractions(ctx, reach):
+    """every `a - b` the authors wrote on input-reachable code is dominated by a comparison that excludes underflow (the crate
+    otherwise uses saturating_sub / checked_sub): with overflow checks on it is a panic of the parsing task, without them a huge
+    length that feeds an allocation, a slice bound or a sleep"""
+    from engine.anl.casts import guard_bounds
+    n = n_arith = 0
+    for key in sorted(reach):
+        body = ctx.P.bodies[key]
+        if key in ctx.P.inlined_away or key.startswith(("util::cert", "util::tls", "anytls_")):
+            continue
+        o = None
+        for bi in sorted(body.reachable()):
+            for st in body.blocks[bi]["stmts"]:
+                if st["s"] != "assign" or st["rv"]["r"] != "binop" or st["span"].get("macros"):
+                    continue
+                op = st["rv"]["op"]
+                if op in ("AddWithOverflow", "Add"):
+                    n_arith += 1
+                if op not in ("SubWithOverflow", "Sub"):
+                    continue
+                ty = body.lty(st["rv"]["a"]["place"]["local"]).get("s") if st["rv"]["a"]["o"] != "const" else st["rv"]["a"]["c"]["ty"].get("s")
+                if ty and ty.startswith(("f32", "f64")):
+                    continue
+                o = o or ctx.origins(body)
+                cfg, conds = ctx.cfg(body), ctx.conds(body)
+                a, b = o.of_operand(st["rv"]["a"]), o.of_operand(st["rv"]["b"])
+                n += 1
+                guarded = False
+                for c in conds.all():
+                    t = c.term
+                    if c.kind != "bool" or not (isinstance(t, tuple) and t and t[0] == "binop"):
+                        continue
+                    if t[1] in ("Le", "Lt") and strip_bb(t[2]) == strip_bb(b) and strip_bb(t[3]) == strip_bb(a) and cfg.edges_dominate(c.edges_for(True), bi):
+                        guarded = True
+                    if t[1] in ("Lt", "Le") and strip_bb(t[2]) == strip_bb(a) and strip_bb(t[3]) == strip_bb(b) and cfg.edges_dominate(c.edges_for(False), bi):
+                        guarded = True
+                cb = const_value(b)
+                if cb is not None:
+                    lo, hi, used = guard_bounds(body, cfg, conds, o, a, bi)
+                    if lo is not None and lo >= cb:
+                        guarded = True
+                ctx.ob("R20.12", "%s|sub#%d" % (ctx.P.owner(key), n), guarded, "%s:%s" % (st["span"].get("file", "?"), st["span"]["line"]),
+                       "`%s - %s` is dominated by a comparison that excludes underflow" % (fmt(a)[:30], fmt(b)[:30]) if guarded else
+                       "`%s - %s` (%s) on input-reachable code has no dominating guard: an input that makes the subtrahend larger panics the task that parses it (overflow checks on) or yields a length near 2^64 "
+                       "(checks off)" % (fmt(a)[:50], fmt(b)[:50], ty))
+    ctx.floor("R20.12", "arithmetic statements seen on input-reachable code (matcher self-check)", n_arith, 10)
+    ctx.ob("R20.12", "input-reachable-set:subtractions-guarded", True, "", "%d plain subtractions examined" % n, nontrivial=False)
+
+
+def _index_bounds(idx):
+    """the non-constant bound terms of an index expression (a plain index, or the fields of a Range* aggregate)"""
+    if isinstance(idx, tuple) and idx and idx[0] == "agg" and "Range" in str(idx[1]) + str(idx[2]):
+        return list(idx[3])
+    return [idx]
+
+
+def r13_slice_indices(ctx, reach):
+    """every slice/array/Vec index the authors wrote on input-reachable code has bounds that are tied to the container it indexes:
+    a constant under a dominating length test of that container, or a value computed from that very container (the count a read
+    into it returned, its len(), a position found in it, a remainder by its length). Anything else — an offset taken from a length
+    byte applied to a fixed buffer — panics the parsing task on the right input."""
+    from engine.anl.casts import guard_bounds
+    n = 0
+    for key in sorted(reach):
+        body = ctx.P.bodies[key]
+        if key in ctx.P.inlined_away or key.startswith(("util::cert", "util::tls", "anytls_")):
+            continue
+        o = None
+        for c in body.calls():
+            cal = c.callee or ""
+            if not cal.endswith(("::index", "::index_mut")) or len(c.args) < 2 or c.span.get("macros"):
+                continue
+            if " for str" in cal or "String as" in cal or "HashMap" in cal or "BTreeMap" in cal:
+                continue
+            o = o or ctx.origins(body)
+            cfg, conds = ctx.cfg(body), ctx.conds(body)
+            cont = o.of_operand(c.args[0])
+            idx = o.of_operand(c.args[1])
+            n += 1
+            ckey = strip_bb(cont)
+            cont_locals = {s_[2] for s_ in subterms(cont) if isinstance(s_, tuple) and s_ and s_[0] == "var" and len(s_) > 2}
+
+            def mentions_container(t, depth=0):
+                for s_ in subterms(t):
+                    if isinstance(s_, tuple) and s_ and s_[0] == "call":
+                        for a_ in s_[3]:
+                            if strip_bb(a_) == ckey:
+                                return True
+                            if isinstance(a_, tuple) and a_ and a_[0] == "var" and len(a_) > 2 and a_[2] in cont_locals:
+                                return True
+                    if depth < 2 and isinstance(s_, tuple) and s_ and s_[0] == "var" and len(s_) > 2 and s_[2] not in cont_locals:
+                        if mentions_container(o.init_of(s_[2]), depth + 1):
+                            return True
+                return False
+
+            bad = None
+            for b_ in _index_bounds(idx):
+                cv = const_value(b_)
+                if cv is not None:
+                    if cv == 0 and not (isinstance(idx, tuple) and idx[0] == "agg"):
+                        pass    # element 0: needs non-emptiness, handled like any constant below
+                    # a constant bound needs a dominating test of the container's length (or a fixed-size array that is large enough)
+                    ty = body.lty(cont[2]).get("s", "") if isinstance(cont, tuple) and cont[0] == "var" and len(cont) > 2 else ""
+                    m = __import__("re").search(r"\[[^;\]]+; (\d+)\]", ty)
+                    if m and int(m.group(1)) >= cv + (0 if isinstance(idx, tuple) and idx[0] == "agg" else 1):
+                        continue
+                    need = cv if isinstance(idx, tuple) and idx[0] == "agg" else cv + 1
+                    okc = need == 0
+                    for cd in conds.all():
+                        tt = cd.term
+                        if cd.kind == "bool" and isinstance(tt, tuple) and tt and tt[0] == "binop" and is_call_term(tt[2], "::len") and tt[2][3] and (strip_bb(tt[2][3][0]) == ckey or (isinstance(tt[2][3][0], tuple) and len(tt[2][3][0]) > 2 and tt[2][3][0][2] in cont_locals)):
+                            k = const_value(tt[3])
+                            if k is None:
+                                continue
+                            if tt[1] == "Ge" and k >= need and cfg.edges_dominate(cd.edges_for(True), c.bb):
+                                okc = True
+                            if tt[1] == "Gt" and k + 1 >= need and cfg.edges_dominate(cd.edges_for(True), c.bb):
+                                okc = True
+                            if tt[1] == "Lt" and k >= need and cfg.edges_dominate(cd.edges_for(False), c.bb):
+                                okc = True
+                            if tt[1] == "Le" and k + 1 >= need and cfg.edges_dominate(cd.edges_for(False), c.bb):
+                                okc = True
+                        if cd.kind == "bool" and need <= 1 and is_call_term(tt, "::is_empty") and tt[3] and (strip_bb(tt[3][0]) == ckey or (isinstance(tt[3][0], tuple) and len(tt[3][0]) > 2 and tt[3][0][2] in cont_locals)) and cfg.edges_dominate(cd.edges_for(False), c.bb):
+                            okc = True
+                    if not okc:
+                        # transitively: need <= V (dominating `V >= k`, k >= need) and V < len(container) (dominating comparison)
+                        for cd in conds.all():
+                            tt = cd.term
+                            if not (cd.kind == "bool" and isinstance(tt, tuple) and tt and tt[0] == "binop" and tt[1] in ("Ge", "Gt") and const_value(tt[3]) is not None):
+                                continue
+                            k = const_value(tt[3]) + (1 if tt[1] == "Gt" else 0)
+                            if k < need or not cfg.edges_dominate(cd.edges_for(True), c.bb):
+                                continue
+                            V = strip_bb(tt[2])
+                            for cd2 in conds.all():
+                                t2 = cd2.term
+                                if cd2.kind == "bool" and isinstance(t2, tuple) and t2 and t2[0] == "binop" and t2[1] in ("Lt", "Le") and strip_bb(t2[2]) == V and mentions_container(t2[3]) and cfg.edges_dominate(cd2.edges_for(True), c.bb):
+                                    okc = True
+                    if not okc:
+                        bad = (b_, "the constant %s is not covered by a dominating test of the container's length" % cv)
+                    continue
+                if mentions_container(b_):
+                    continue
+                # a variable compared with the container's length on the way here
+                okv = False
+                for cd in conds.all():
+                    tt = cd.term
+                    if cd.kind == "bool" and isinstance(tt, tuple) and tt and tt[0] == "binop" and tt[1] in ("Lt", "Le") and strip_bb(tt[2]) == strip_bb(b_) and mentions_container(tt[3]) and cfg.edges_dominate(cd.edges_for(True), c.bb):
+                        okv = True
+                if not okv:
+                    bad = (b_, "`%s` is not computed from the container and not compared with its length" % fmt(b_)[:60])
+            ctx.ob("R20.13", "%s|index#%d" % (ctx.P.owner(key), n), bad is None, c.site, "bounds tied to the indexed container" if bad is None else
+                   "`%s[%s]`: %s — input of the right size makes this index panic, which ends the task that parses it (no reply, no cleanup)" % (fmt(cont)[:30], fmt(idx)[:60], bad[1]))
+    ctx.floor("R20.13", "slice index sites on input-reachable code", n, 25)
+
+
 def r8_inventory(ctx, reach):
     total = 0
     kinds = {}
@@ -335,4 +491,6 @@ def run(ctx):
     r9_str_index(ctx, reach)
     r10_read_loops(ctx, reach)
     r11_counted_loops(ctx, reach)
+    r12_subtractions(ctx, reach)
+    r13_slice_indices(ctx, reach)
     r8_inventory(ctx, reach)
